@@ -29,7 +29,9 @@ inductive Val where
 
 /-- value `v` is a legal value of type `t` (null allowed unless non-null; list items checked). WITHOUT list input
     coercion: a non-list value is NOT accepted where a list is expected (with it: `Props.C20.accC`,
-    Props/C20_coercion.lean, where the input predicate is sound but no longer exact) -/
+    Props/C20_coercion.lean, where the input predicate is sound but no longer exact). NAMED types are compared by
+    EQUALITY only: no covariance of an output position from an interface / union to one of its possible types
+    (`pet: Pet` → `pet: Dog` is reported as a type change: over-reporting, never under-reporting) -/
 def acc : Ty → Val → Bool
   | .named _, .null => true
   | .named n, .leaf m => n == m
